@@ -70,7 +70,8 @@ func zzRS(name, hash string) *datadoghqv1alpha1.ExtendedDaemonSetReplicaSet {
 }
 
 // zzPod builds a daemon pod of foo.
-//   binding: 0 = spec.nodeName, 1 = node-name affinity (not yet scheduled), 2 = unbound
+//
+//	binding: 0 = spec.nodeName, 1 = node-name affinity (not yet scheduled), 2 = unbound
 func zzPod(name, node, rsName, hash string, binding int, phase corev1.PodPhase, ready bool, created time.Time) *corev1.Pod {
 	p := &corev1.Pod{
 		ObjectMeta: metav1.ObjectMeta{
